@@ -424,6 +424,7 @@ def check_guarded_fields(ctx, rid, cls, only_fields=None, doc=None, only_functio
             ctx.ob(rid, ok, site, what, detail, fn=top.label, inst=inst)
             n += 1
     n += _co_update(ctx, rid, cls, tab)
+    n += _blind_stores(ctx, rid, cls, tab)
     # inferred fields: the intersection of the locks held over all accesses must not be empty
     for name, accs in locksets.items():
         writes = [a for a in accs if a[2]]
@@ -609,6 +610,43 @@ def _atomic_call_is_load(f, user):
         return False
     c = user.get("callee") or {}
     return c.get("name") in ("load",) or c.get("kind") == "conv"
+
+
+def _blind_stores(ctx, rid, cls, tab):
+    """a NEW atomic member that is counted up and down with read-modify-write operations and ALSO overwritten with a
+    plain store (`n = 0`, `n.store(k)`): the store erases every increment that happened since the value it is based on was
+    read, unless one mutex is held at the store and at each of those increments.  (Members that existed when the tables
+    were written have their protocol described there.)"""
+    from .engine import atomic_ops, atomic_field_of
+    fb, eng = ctx.fb, ctx.eng
+    names = [nm for nm, e in tab.items() if e.get("kind") == "atomic" and e.get("inferred")]
+    n = 0
+    for name in names:
+        rmws, stores = [], []
+        for f, top in class_functions(fb, cls):
+            if top.kind in ("ctor", "dtor"):
+                continue
+            la = None
+            for op in atomic_ops(f):
+                if atomic_field_of(f, op) != (cls, name):
+                    continue
+                pos = f.pos_of(op["st"])
+                la = la or locks_of(eng, fb, f)
+                held = {m for m, mo, _k in la.held_at(pos) if mo == "X"} if pos is not None else set()
+                if op["op"] == "rmw" and op["name"] in ("operator++", "operator--", "fetch_add", "fetch_sub", "operator+=", "operator-="):
+                    rmws.append((f, top, op, held))
+                elif op["op"] == "store":
+                    stores.append((f, top, op, held))
+        for f, top, op, held in stores:
+            loose = [(g, o) for g, _t, o, h in rmws if not (h & held)]
+            ok = not loose
+            n += 1
+            ctx.ob(rid, ok, f.loc(op["st"]), "the plain store to the new counter %s cannot erase a concurrent increment" % name,
+                   "" if ok else "%s is %s at %s with no mutex in common with this store (held here: %s): an update made "
+                   "between the moment this value was decided and the store is lost, and whatever the counter steers goes wrong"
+                   % (name, loose[0][1]["name"].replace("operator", ""), loose[0][0].loc(loose[0][1]["st"]),
+                      ", ".join(sorted(h[5:] for h in held)) or "nothing"), fn=top.label, inst=f.qname)
+    return n
 
 
 def _fmt_held(la, pos):
